@@ -28,7 +28,11 @@ MANIFEST = dict(
          "generated and exhaustively enumerated histories on a real DiGraph and comparing the full object state "
          "step by step inside Coq (vm_compute). Partial in one respect: that a well-formed call *succeeds* is proved "
          "for sorting and for construction histories (C18_sort_terminates_acyclic, C18_built_acyclic_sorts); for the "
-         "removal operations it is checked by the executable reference reading only (see design/C37.md).",
+         "removal operations: proved for remove_nodes (C37_wellformed_remove_nodes_succeeds, "
+         "C37_wellformed_removals_never_raise: on a well-formed object a remove_nodes call meeting the computable "
+         "precondition pre_opb returns, stays well-formed and leaves a valid order); for remove_nodes_connections, "
+         "remove_previous_connections and remove_successors_nodes it is checked by the executable reference reading "
+         "only (see design/C37.md).",
     note="Trusted: Coq kernel + vm_compute; hand-written model Model/Graph.v (nodes identified by name; a raising call "
          "ends the history); correspondence is differential testing.",
     technique="Coq proof (invariant over operation histories; soundness of the pass-wise sort from arbitrary state) + "
